@@ -195,6 +195,72 @@ pub fn long_case_strategy() -> impl Strategy<Value = Case> {
         })
 }
 
+/// Directed layout: valid filler records bring the stream to a chosen alignment, then a
+/// record whose encoding ends with a `00 00` final header (a payload of exactly 252 bytes)
+/// or a short record is placed so that only its last 1..3 bytes (or nothing, or a bit more)
+/// fall into the next I/O block; arena turnovers are forced between records.
+pub fn aligned_stream(block: usize, multiple: u8, delta: i8, tail_payload: u16, after: &[(stream_in::Token, u8)]) -> StreamSpec {
+    use crate::engine::bytespec::Hex;
+    let rec = |n: usize, byte: u8| stream_in::Token::Record(ByteSpec(vec![Seg::Fill { byte, len: n as u32 }]));
+    let tail_payload = tail_payload as usize;
+    // Encoded length of the aligned record (no stuff sequence inside).
+    let enc_len = if tail_payload >= 252 { 1 + 252 + 2 + (tail_payload - 252) } else { 1 + tail_payload };
+    // Where the aligned record must start so that its last two bytes are the first of a block.
+    let mut target = (multiple as usize + 1) * block.max(2);
+    while target < enc_len + 8 {
+        target += block.max(2);
+    }
+    let start = (target as i64 - (enc_len as i64 - 2) + delta as i64).max(3) as usize;
+    // Fill [0, start) with valid records of 100 payload bytes (103 stream bytes each) and one adjusted record.
+    let mut tokens = vec![];
+    let mut left = start;
+    while left >= 103 + 3 {
+        tokens.push((rec(100, 0x31), 1u8));
+        left -= 103;
+    }
+    if left >= 3 {
+        tokens.push((rec(left - 3, 0x32), 1u8));
+    } else {
+        tokens.push((stream_in::Token::Garbage(Hex(vec![0x11; left])), 0u8));
+    }
+    tokens.push((rec(tail_payload, 0x41), 1u8));
+    tokens.extend(after.iter().cloned());
+    StreamSpec {
+        leading_sentinels: 0,
+        tokens,
+        truncate: None,
+    }
+}
+
+pub fn aligned_case_strategy() -> impl Strategy<Value = Case> {
+    (
+        prop_oneof![Just(12u8), Just(13), Just(14), Just(15), Just(9), Just(8)],
+        0u8..3,
+        -4i8..=4,
+        prop_oneof![4 => Just(252u16), 2 => Just(504u16), 2 => 65u16..252, 1 => 253u16..400],
+        proptest::collection::vec((stream_in_token(), prop_oneof![Just(1u8), Just(2u8)]), 0..3),
+        proptest::collection::vec(super::codec::nudge(), 0..4),
+        stream_in::delivery(),
+    )
+        .prop_map(|(block, multiple, delta, tail, after, mut nudges, mut delivery)| {
+            delivery.block = block;
+            let b = delivery.block_size().unwrap_or(4096);
+            // Mostly flush between records, so that the next block goes to a fresh arena chunk.
+            nudges.push(super::codec::Nudge::Flush);
+            Case {
+                stream: aligned_stream(b, multiple, delta, tail, &after),
+                delivery,
+                max_size: None,
+                limit: None,
+                nudges,
+            }
+        })
+}
+
+fn stream_in_token() -> impl Strategy<Value = stream_in::Token> {
+    crate::engine::bytespec::small_payload().prop_map(stream_in::Token::Record)
+}
+
 pub fn case_strategy() -> impl Strategy<Value = Case> {
     (
         stream_in::stream_spec(7),
@@ -256,6 +322,8 @@ pub fn run(ctx: &Ctx, rep: &mut Report) {
     engine::drive(ctx, rep, "random", case_strategy(), cases, check_case);
     let cases = ctx.share(ctx.tier.pick(12_000, 200_000));
     engine::drive(ctx, rep, "long-streams", long_case_strategy(), cases, check_case);
+    let cases = ctx.share(ctx.tier.pick(12_000, 300_000));
+    engine::drive(ctx, rep, "block-aligned-tails", aligned_case_strategy(), cases, check_case);
 }
 
 fn replay(_ctx: &Ctx, _group: &str, case: &Value) -> CaseResult {
@@ -265,7 +333,7 @@ fn replay(_ctx: &Ctx, _group: &str, case: &Value) -> CaseResult {
 pub fn def() -> PropDef {
     PropDef {
         id: "C06",
-        rule: "A case is (stream description, delivery, judge parameters): streams and deliveries as in C08 (records, torn and corrupted records, garbage, lone FE, 0..3 delimiters after each token, whole-stream truncation; scripted short reads / EINTR, block sizes {0,1,2,3,4,5,7,8,64,4096,70000,default}, arena preparation); the standard judge gets a size limit placed at the decoded size of some valid record -1/0/+1 and an offset limit placed at the start of some segment -1/0/+1 (or none). Oracle: split the stream at every FE FD with an independent splitter, keep non-empty segments up to the first one starting at or after the limit, keep those the reference decoder accepts with decoded size <= max; next_record_bytes must return exactly that list of (bytes, byte range), then None three times, without error or panic; last_sentinel_offset is the start of the last delimiter read. A small log truncated at every byte is enumerated; long-streams uses up to 70 tokens (several arena chunks' worth of records) with block sizes 3..4096, so that reads cross arena chunk boundaries in many alignments. Non-trivial: >= 2 returned records with a skipped (invalid / oversized / empty-payload) segment between two of them, or a read that split an FE|FD pair in a stream with at least one returned record. Distinct: hash of the serialised case.",
+        rule: "A case is (stream description, delivery, judge parameters): streams and deliveries as in C08 (records, torn and corrupted records, garbage, lone FE, 0..3 delimiters after each token, whole-stream truncation; scripted short reads / EINTR, block sizes {0,1,2,3,4,5,7,8,64,4096,70000,default}, arena preparation); the standard judge gets a size limit placed at the decoded size of some valid record -1/0/+1 and an offset limit placed at the start of some segment -1/0/+1 (or none). Oracle: split the stream at every FE FD with an independent splitter, keep non-empty segments up to the first one starting at or after the limit, keep those the reference decoder accepts with decoded size <= max; next_record_bytes must return exactly that list of (bytes, byte range), then None three times, without error or panic; last_sentinel_offset is the start of the last delimiter read. A small log truncated at every byte is enumerated; long-streams uses up to 70 tokens (several arena chunks' worth of records) with block sizes 3..4096, so that reads cross arena chunk boundaries in many alignments; block-aligned-tails lays out valid filler records so that a record with a 00 00 final header (252- or 504-byte payload) or a short record ends 0..4 bytes around an I/O block boundary (blocks 64 / 100 / 256 / 1000 / 2048 / 4096), with the arena flushed between records through the returned record's arena(). Non-trivial: >= 2 returned records with a skipped (invalid / oversized / empty-payload) segment between two of them, or a read that split an FE|FD pair in a stream with at least one returned record. Distinct: hash of the serialised case.",
         assumptions: &[
             "only the standard judge (chunk_judge) is modelled",
             "readers only deliver short reads and Interrupted errors",
